@@ -145,6 +145,20 @@ def explore_class(cls, depth):
     for name, res in (("Add", x + arr), ("Sub", x - arr), ("Mul", x * arr), ("Div", x / arr)):
         for f, r in zip(arr, res):
             record_prog(cls, ins, [({"name": name + "F", "f": float(f)}, [0])], r)
+    # numpy float arrays on the left-hand side (numpy falls back to the reflected dunder per element)
+    for name, res in (("RAddF", arr + x), ("RSubF", arr - x), ("RMulF", arr * x), ("RDivF", arr / x)):
+        for f, r in zip(arr, res):
+            record_prog(cls, ins, [({"name": name, "f": float(f)}, [0])], r)
+    # numpy object arrays of dual numbers on the right-hand side (the extension updates the array in
+    # place and returns it, so every operation gets a fresh array) and on the left-hand side
+    for name, fn in (("Add", lambda a, b: a + b), ("Sub", lambda a, b: a - b), ("Mul", lambda a, b: a * b), ("Div", lambda a, b: a / b)):
+        order = [1, 0, 1]
+        res = fn(x, np.array([regs0[j] for j in order], dtype=object))
+        for j, r in zip(order, res):
+            record_prog(cls, ins, [({"name": name}, [0, j])], r)
+        res = fn(np.array([regs0[j] for j in order], dtype=object), x)
+        for j, r in zip(order, res):
+            record_prog(cls, ins, [({"name": name}, [j, 0])], r)
 
 # ---------------------------------------------------------------- drivers
 CHAINS_Q = [[], [{"name": "Sin"}], [{"name": "Exp"}, {"name": "MulF", "f": 1.5}], [{"name": "Tanh"}, {"name": "PowInt", "i": 3}], [{"name": "Sqrt"}, {"name": "RSubF", "f": 2.0}],
